@@ -244,7 +244,8 @@ def operations(ws):
         ops.append(("prune", "modifier_types", t))
     for m in meas:
         ops.append(("prune", "measurements", m))
-        ops.append(("rename", "measurements", m, m + "_r"))
+        if m + "_r" not in meas:
+            ops.append(("rename", "measurements", m, m + "_r"))
     if len(chans) >= 2:
         ops.append(("swap", "channels", chans[0], chans[1]))
     if len(samp) >= 2:
